@@ -367,7 +367,7 @@ func checkIDAndDeadline(c *report.Ctx) {
 	}
 	if f := fn(c, rapidcP, "(*Server).setReplyStream"); f != nil {
 		ok := false
-		for _, e := range an.Exits(f) {
+		for _, e := range an.ExitTuples(f) {
 			if len(e.Vals) == 2 && an.IsNil(e.Vals[1]) {
 				fr, k := an.AsField(an.Strip(e.Vals[0], false))
 				ok = k && fr.Struct == "L/interop.Token" && fr.Field == "InvokeID"
